@@ -149,6 +149,17 @@ def prop_sim(case):
     ran = False
     for full in (False, True):
         f, args, kw = simrun.build(case, full, budget=CallBudget(400000))
+        if case.get('np0d') and isinstance(args[0], nx.Graph):
+            # weights stored as 0-d numpy arrays (mutable, unlike floats): in-place arithmetic on them would edit the caller's graph
+            for _u, _v, d in args[0].edges(data=True):
+                for k_ in list(d):
+                    d[k_] = np.array(d[k_], dtype=float)
+            for _u, d in args[0].nodes(data=True):
+                for k_ in list(d):
+                    d[k_] = np.array(d[k_], dtype=float)
+        if case.get('overlap') and isinstance(kw.get('initial_infecteds'), list) and isinstance(kw.get('initial_recovereds'), list):
+            # the docstrings promise no consistency test between the two collections: a node may be listed in both
+            kw['initial_recovereds'] = kw['initial_recovereds'] + kw['initial_infecteds'][:1]
 
         def reseed():
             random.seed(case['seed']); np.random.seed(case['seed'] % 2 ** 32)
@@ -159,7 +170,17 @@ def prop_sim(case):
     uniq = {}
     for f_ in fails:
         uniq.setdefault(f_.signature, f_)
-    return Result(list(uniq.values()), nontrivial=ran, classes=[sim])
+    return Result(list(uniq.values()), nontrivial=ran, classes=[sim] + (['0-d-array-weights'] if case.get('np0d') else []) + (['I0-R0-overlap'] if case.get('overlap') else []))
+
+
+@st.composite
+def c19_sim_case(draw, sim):
+    case = draw(simrun.sim_case(sims=[sim], nmax=12))
+    if draw(st.integers(0, 4)) == 0:
+        case['np0d'] = True
+    if case.get('R0') and draw(st.integers(0, 3)) == 0:
+        case['overlap'] = True
+    return case
 
 
 def prop_helpers(case):
@@ -224,7 +245,7 @@ def run(ctx):
             run_hypothesis(ctx, 'ode', ac.analytic_case(names=[nm], selfloops=True, weights=True), prop_ode, 14 if quick else 300, rounds=3)
     if not only or 'simulators' in only:
         for sim in simrun.SIMS:
-            run_hypothesis(ctx, 'simulators', simrun.sim_case(sims=[sim], nmax=12), prop_sim,
+            run_hypothesis(ctx, 'simulators', c19_sim_case(sim), prop_sim,
                            (60 if sim.startswith('Gillespie_s') else 30) if quick else 1500, rounds=3)
     if not only or 'helpers' in only:
         from . import c17
